@@ -1,6 +1,7 @@
 //! owlverif — runtime monitors for owlchess (see /verif/DESIGN.md).
 #![allow(dead_code)]
 
+mod chainlog;
 mod conv;
 mod ctx;
 mod gen;
@@ -130,6 +131,11 @@ fn main() {
             };
             ctx::install_panic_hook();
             hooks::install();
+            // Under Miri the from-scratch recomputation after every apply/undo is kept only for the
+            // properties that are about derived state; the observers still count events.
+            if a.config == "miri" && !matches!(prop.as_str(), "C04" | "C05") {
+                hooks::set_check_derived(false);
+            }
             let mut c = Ctx::new(&prop, &a.config, a.tier, a.seed, a.shard, a.nshards, a.scale, trace);
             let t0 = Instant::now();
             let status = if argv[1] == "run" {
